@@ -186,6 +186,8 @@ def run(tier: str, seed: int) -> Result:
         for t in (2**21 - 1, 2**21, 2**28, 2**32, 2**35 + 5):
             check_plain(res, c, [(t, b"ab")], h, tr)
         lens = list(range(0, 301)) + [16383, 16384, 16385, 65515, 65535, 65536, 70000, 2**21 - 1, 2**21]
+        if not quick:
+            lens = sorted(set(lens) | set(range(0, 2200)) | set(range(2200, 70001, 97)) | {2**14 + d for d in range(-3, 4)} | {2**16 + d for d in range(-3, 4)})
         for ln in lens:
             pl = filler(ln, "p")
             for t in (1, 127, 128, 16384):
@@ -251,6 +253,8 @@ def run(tier: str, seed: int) -> Result:
         for t in list(range(0, 65536, step)) + [255, 256, 65535]:
             check_noise(res, c, [(t, b"")], hn, trn, dev)
         nlens = list(range(0, 301)) + [16383, 16384, 16385, 65514, 65515]
+        if not quick:
+            nlens = sorted(set(nlens) | set(range(0, 2200)) | set(range(2200, 65516, 97)) | {2**15 - 20 + d for d in range(-8, 9)} | {65515 - d for d in range(0, 6)})
         for ln in nlens:
             pl = filler(ln, "n")
             for t in (1, 255, 256):
@@ -263,7 +267,7 @@ def run(tier: str, seed: int) -> Result:
                         check_noise(res, c, [a, b, d], hn, trn, dev)
         # nonce continuity over a long history on one session: batch sizes cycle 1,2,3
         hn2, trn2, dev2 = noise_helper("b")
-        target = 70000 if not quick else 66000
+        target = 200000 if not quick else 66000
         i = 0
         ok = True
         while dev2.r.rx.n < target and ok:  # type: ignore[union-attr]
